@@ -91,6 +91,8 @@ def gen_state_tbl():
                     order.append("global_decl")
                 elif t == "arg.id in self.sym_table":
                     order.append("sym_table")
+                elif t.startswith("self.curr_func_sym_table is not None and self.sym_table is not self.curr_func_sym_table"):
+                    order.append("enclosing_func")     # a class body inside a function sees that function's variables
                 elif t == "arg.id in self.local_sym_table":
                     order.append("local_sym_table")
                 elif t == "arg.id in self.global_sym_table":
